@@ -82,6 +82,10 @@ ITEMS = [
      {"addr.interface_id.index": "a_index", "addr_b.interface_id.index": "b_index"}, False),
     ("flush_new_expire", [("now", "N")], "N", C, H_AOU,
      r"let new_expire = (?P<e>[^;]+);\s*r\.record\.set_expire\(new_expire\);\s*timers\.push\(new_expire\);", {"now": "now"}, False),
+    # a matching record on its way out (TTL <= 1) that is announced again (TTL > 1) counts as new
+    ("revived_guard", [("old_ttl", "N"), ("new_ttl", "N")], "bool", C, H_AOU,
+     r"let revived =\s*(?P<e>r\.record\.get_record\(\)\.get_ttl\(\) <= \d+ && incoming\.get_record\(\)\.get_ttl\(\) > \d+);",
+     {"r.record.get_record().get_ttl()": "old_ttl", "incoming.get_record().get_ttl()": "new_ttl"}, False),
     # ServiceFound only for a new PTR that does not expire soon
     ("found_ttl_guard", [("ttl", "N")], "bool", D, H_RESP,
      r"if ty == RRType::PTR && (?P<e>dns_record\.record\.get_record\(\)\.get_ttl\(\) > \d+) \{",
